@@ -6,6 +6,7 @@ import (
 	"go/constant"
 	"go/token"
 	"go/types"
+	"strings"
 
 	"golang.org/x/tools/go/ssa"
 
@@ -482,6 +483,98 @@ func handWrittenUTF8(p *plainParts) bool {
 	}
 	return rec(p.f, 0) || rec(p.g, 0)
 }
+
+// R11.7
+var ruleRuneError = &core.Rule{ID: "R11.7", Min: 1,
+	Doc: "hand-written rune decoding in the plain sniffer (none on the pinned tree): a decoded rune is taken for a decoding error only when it equals utf8.RuneError and its width is 1 (a correctly encoded U+FFFD decodes to the same rune with width 3)",
+	Run: func(c *core.Ctx, s *core.Sink) {
+		p := getPlain(c)
+		seen := map[*ssa.Function]bool{}
+		n := 0
+		var rec func(f *ssa.Function, d int)
+		rec = func(f *ssa.Function, d int) {
+			if f == nil || f.Blocks == nil || seen[f] || d > 2 {
+				return
+			}
+			seen[f] = true
+			for _, ci := range core.Calls(f) {
+				g := ci.Common().StaticCallee()
+				if g == nil {
+					continue
+				}
+				if core.InMod(g) {
+					rec(g, d+1)
+					continue
+				}
+				if g.Pkg == nil || g.Pkg.Pkg.Path() != "unicode/utf8" || !strings.HasPrefix(g.Name(), "Decode") {
+					continue
+				}
+				call, ok := ci.(*ssa.Call)
+				if !ok {
+					continue
+				}
+				var rn, size ssa.Value
+				for _, ref := range *call.Referrers() {
+					if ex, ok := ref.(*ssa.Extract); ok {
+						if ex.Index == 0 {
+							rn = ex
+						} else {
+							size = ex
+						}
+					}
+				}
+				if rn == nil {
+					continue
+				}
+				isWidthTest := func(v ssa.Value) bool {
+					cond, _ := core.StripNot(v, true)
+					bo, ok := cond.(*ssa.BinOp)
+					return ok && size != nil && (bo.X == size || bo.Y == size)
+				}
+				for _, ref := range *rn.Referrers() {
+					bo, ok := ref.(*ssa.BinOp)
+					if !ok || (bo.Op != token.EQL && bo.Op != token.NEQ) {
+						continue
+					}
+					other := bo.Y
+					if other == rn {
+						other = bo.X
+					}
+					if k, isK := core.ConstInt(other); !isK || k != 0xFFFD {
+						continue
+					}
+					n++
+					key := fmt.Sprintf("%s: RuneError test #%d", core.FName(f), n)
+					// the edge on which the rune is RuneError leads to a width test, or a width test dominates this one
+					paired := false
+					for _, r2 := range *bo.Referrers() {
+						iff, ok := r2.(*ssa.If)
+						if !ok {
+							continue
+						}
+						errEdge := iff.Block().Succs[0]
+						if bo.Op == token.NEQ {
+							errEdge = iff.Block().Succs[1]
+						}
+						if i2 := core.IfOf(errEdge); i2 != nil && isWidthTest(i2.Cond) && len(errEdge.Instrs) <= 2 {
+							paired = true
+						}
+					}
+					for _, de := range core.DominatingConds(bo.Block()) {
+						if isWidthTest(de.Cond) {
+							paired = true
+						}
+					}
+					s.Check(paired, key, c.Pos(bo.Pos()), "paired with a test of the width", "a decoded rune equal to utf8.RuneError is taken for a decoding error without looking at its width: text that contains a correctly encoded U+FFFD (EF BF BD) is no longer recognised as UTF-8")
+				}
+			}
+		}
+		rec(p.f, 0)
+		rec(p.g, 0)
+		if n == 0 {
+			s.OK("no hand-written rune decoding in the plain sniffer", c.Pos(p.f.Pos()), "utf8.Valid decides")
+		}
+	}}
 
 // R11.4
 var ruleASCIIClass = &core.Rule{ID: "R11.4", Min: 256,
